@@ -1,7 +1,9 @@
 From Coq Require Import Extraction ExtrOcamlBasic List ZArith.
-From MirV Require Import C07.CConv C07.C11Conv C07.CFold C07.C11Fold C07.BitField.
+From MirV Require Import C07.CConv C07.C11Conv C07.CFold C07.C11Fold C07.BitField C07.FFold.
 Extraction Language OCaml.
 Extraction "c07x.ml" ord of_ord integer_promotion arithmetic_conversion const_type c11_promote c11_conv
   c11_const_type fold_bin fold_un fold_cast fold_cond fold_andand fold_oror
   rt_bin rt_un rt_cast rt_cond rt_andand rt_oror wf
-  wf_bf bf_load bf_store load_code store_code store_result c11_conv_bf c11_read_bf m_ne0 obj_unit obj_store.
+  wf_bf bf_load bf_store load_code store_code store_result c11_conv_bf c11_read_bf m_ne0 obj_unit obj_store
+  ffold_bin ffold_un ffold_cast ffold_cond ffold_andand ffold_oror rt_fbin rt_fun rt_fcast rt_fcond rt_fandand rt_foror
+  fp_make fp_inf fp_nan fp_view fp_type wfa.
